@@ -259,6 +259,28 @@ def budget_field_prov(t, rid):
     return r
 
 
+def _payload_alts(e, depth=0):
+    """the values an expression may denote, through phi nodes and through `Some(x)` built and taken apart again (`let Some(v) = helper(..) else ..`):
+    field(as(phi(Some{a}, None, Some{b}), Some), 0) -> a, b"""
+    e = strip(e)
+    if depth > 6 or not isinstance(e, tuple): return [e]
+    if e[0] == "phi": return [x for a in e[2] for x in _payload_alts(a, depth + 1)]
+    if e[0] == "field" and isinstance(strip(e[1]), tuple) and strip(e[1])[0] == "as" and strip(e[1])[2] in ("Some", "Ok"):
+        out = []
+        for a in _payload_alts(strip(e[1])[1], depth + 1):
+            a = strip(a)
+            if isinstance(a, tuple) and a[0] == "aggr" and a[2] in ("Some", "Ok") and a[3]: out += _payload_alts(a[3][0], depth + 1)
+            elif isinstance(a, tuple) and a[0] == "aggr" and a[2] in ("None", "Err"): continue
+            else: out.append(("field", ("as", a, strip(e[1])[2]), e[2]))
+        return out
+    return [e]
+
+
+def _is_now(a):
+    a = strip(a)
+    return isinstance(a, tuple) and a[0] == "param" and a[2] != "self"      # the only Duration-typed parameter is the tick's time, whatever it is called
+
+
 def last_sent_values(t, rid):
     """the retransmission timer of a message/slice is only ever set forward: inside SendChannelReliable::get_packets_to_send every store to
     `last_sent` is `Some(current_time)`. Clearing it (None) or back-dating it makes the next tick retransmit before resend_time has elapsed."""
@@ -270,7 +292,7 @@ def last_sent_values(t, rid):
             if n["k"] != "assign" or not n["place"]["proj"] or "last_sent" not in fmt(t.place(s)): continue
             v = strip(t.stored(s))
             r.site(s, fmt(v)[:50])
-            ok = isinstance(v, tuple) and v[0] == "aggr" and v[2] == "Some" and "current_time" in fmt(resolved(t, v[3][0], f))
+            ok = isinstance(v, tuple) and v[0] == "aggr" and v[2] == "Some" and all(_is_now(a) for a in _payload_alts(resolved(t, v[3][0], f)))
             if not ok: r.bad(f"value|{fmt(v)[:30]}", s, f"a retransmission timer is set to {fmt(v)[:60]} in the send loop: the message/slice can be transmitted again before resend_time has elapsed since its previous transmission")
     return r
 
